@@ -48,6 +48,11 @@ InvOneNote == \A w \in st.ws : Cardinality({j \in DOMAIN st.q : st.q[j].kind = "
 (* Without data watches every existing node is mirrored (possibly with the data of an earlier incarnation). *)
 InvCompleteNoData == (Settled /\ ~WatchData) => \A k \in Keys : Exists(st, k) => HasFile(st, k)
 
+(* ... but the gap below never outlives the next change of the directory: right after ANY run of the    *)
+(* children callback every existing node is mirrored (action property).                                 *)
+HealsOnChildRun == [][(CanDeliver(st) /\ Head(st.q).kind = "child" /\ st' = DoDeliver(st, WatchData))
+                        => \A k \in Keys : Exists(st', k) => HasFile(st', k)]_vars
+
 (* EXPECTED TO FAIL with WatchData: a node deleted and re-created while a children notification is in      *)
 (* flight is seen as "common" by the children callback and then REMOVED by the old node's DELETED          *)
 (* notification; nothing re-creates the file until the directory changes again (observed, not judged).      *)
